@@ -955,7 +955,12 @@ def argmax(a, axis=None):
     if builtins.all(x.is_const() and x.is_real() for x in v):
         vals = [x.re.cval() for x in v]
         return ndarray(_wrap0(SC.lift(vals.index(builtins.max(vals)))))
-    raise Unsupported("argmax of symbolic values")
+    # symbolic reals: first maximal element, decided by solver-forked comparisons
+    best = 0
+    for i in range(1, len(v)):
+        if builtins.bool(v[i] > v[best]):
+            best = i
+    return ndarray(_wrap0(SC.lift(best)))
 
 
 def _close(x, y, rtol, atol):
